@@ -9,6 +9,7 @@ import (
 	"mime/multipart"
 	"net/http"
 	"net/http/httptest"
+	"strings"
 	"sync"
 	"testing"
 
@@ -41,8 +42,8 @@ var texts = []string{
 }
 
 var opNames = []string{"", "A", "B", "M", "Zzz"}
-var variables = []string{"", `{"n":2}`, `{"n":3,"f":false}`, `{"s":"x"}`, `{"x":7}`, `{"n":"bad"}`, `{}`, `null`}
-var extensionsPool = []string{"", `{"echo":"e1"}`, `{"echo":"e2","other":[1]}`, "APQ", "APQHASHONLY", "APQWRONG"}
+var variables = []string{"", `{"n":2}`, `{"n":3,"f":false}`, `{"s":"x"}`, `{"x":7}`, `{"n":"bad"}`, `{}`, `null`, `"x"`, `[1,2]`, `5`}
+var extensionsPool = []string{"", `{"echo":"e1"}`, `{"echo":"e2","other":[1]}`, "APQ", "APQHASHONLY", "APQWRONG", `"notanobject"`, `[{"echo":"e3"}]`}
 var echoHeaders = []string{"", "h1", "h2"}
 
 type Req struct {
@@ -147,6 +148,11 @@ func serve(h http.Handler, s *proj.Server, r Req) answer {
 // registers: does this request register its text with APQ (model)?
 func (r Req) registers() bool {
 	if extensionsPool[r.Ext] != "APQ" {
+		return false
+	}
+	// a request whose members have the wrong JSON type is rejected while the body is decoded,
+	// before the persisted-query extension sees it
+	if v := variables[r.Vars]; v != "" && v != "null" && !strings.HasPrefix(v, "{") {
 		return false
 	}
 	return r.Transport == "post" || r.Transport == "get" || r.Transport == "multipart" || r.Transport == "sse" || r.Transport == "multipartmixed"
